@@ -94,6 +94,7 @@ def suite_sigma(ctx, case):
     """sigma defaulting through createPRISM and the contact rule on a real Domain"""
     L, dr = case['L'], case['dr']; d1, d2 = case['d']; kT = case['kT']
     sys_ = pyPRISM.System(['A', 'B'], kT=kT)
+    PYc = lambda: pyPRISM.closure.PercusYevick(apply_hard_core=True) if case.get('hc') else pyPRISM.closure.PercusYevick()      # closures that apply their own hard core (at the mean diameter)
     sys_.domain = pyPRISM.Domain(length=L, dr=dr)
     sys_.density['A'] = 0.1; sys_.density['B'] = 0.2
     for (t, v) in case.get('pre', []):
@@ -104,16 +105,16 @@ def suite_sigma(ctx, case):
     sys_.omega['A', 'B'] = pyPRISM.omega.NoIntra()
     how = case.get('assign', 'group')          # how the ONE sigma-less potential / closure object reaches the three pairs
     if how == 'setunset':
-        sys_.closure.setUnset(pyPRISM.closure.PercusYevick()); sys_.potential.setUnset(pyPRISM.potential.HardSphere())
+        sys_.closure.setUnset(PYc()); sys_.potential.setUnset(pyPRISM.potential.HardSphere())
     elif how == 'shared':
-        U = pyPRISM.potential.HardSphere(); C = pyPRISM.closure.PercusYevick()
+        U = pyPRISM.potential.HardSphere(); C = PYc()
         for a, b in (('A', 'A'), ('A', 'B'), ('B', 'B')):
             sys_.potential[a, b] = U; sys_.closure[a, b] = C          # one object assigned pair by pair
     elif how == 'partial+setunset':
-        sys_.potential['A', 'A'] = pyPRISM.potential.HardSphere(); sys_.closure['B', 'B'] = pyPRISM.closure.PercusYevick()
-        sys_.closure.setUnset(pyPRISM.closure.PercusYevick()); sys_.potential.setUnset(pyPRISM.potential.HardSphere())
+        sys_.potential['A', 'A'] = pyPRISM.potential.HardSphere(); sys_.closure['B', 'B'] = PYc()
+        sys_.closure.setUnset(PYc()); sys_.potential.setUnset(pyPRISM.potential.HardSphere())
     else:
-        sys_.closure[['A', 'B'], ['A', 'B']] = pyPRISM.closure.PercusYevick()
+        sys_.closure[['A', 'B'], ['A', 'B']] = PYc()
         sys_.potential[['A', 'B'], ['A', 'B']] = pyPRISM.potential.HardSphere()
     explicit = case.get('explicit')
     if explicit is not None:
@@ -128,6 +129,7 @@ def suite_sigma(ctx, case):
         got = p.sys.closure[a, b].potential
         if not np.array_equal(want, got): ok = False; why = 'pair %s-%s: closure does not see U(sigma=%r)/kT' % (a, b, s)
         if p.sys.closure[a, b].sigma != (da + db) / 2.0: ok = False; why = 'closure contact distance of %s-%s is not the mean diameter' % (a, b)
+        if p.sys.potential[a, b].sigma != s: ok = False; why = 'pair %s-%s: the potential evaluated has sigma=%r, not %r' % (a, b, p.sys.potential[a, b].sigma, s)
     if sys_.potential['A', 'A'].sigma is not None or sys_.closure['A', 'A'].potential is not None:
         ok = False; why = 'createPRISM wrote sigma/potential into the System\'s own objects'
     ctx.pred('sigma', case, ok, why, key='C10:sigma-default')
@@ -241,7 +243,7 @@ def generate(ctx):
             d1 = float(pyPRISM.Domain(length=L, dr=dr).r[0]) * 0 + m * dr
             d2 = (m + 2 * rng.randrange(0, 3)) * dr
             case = {'L': L, 'dr': dr, 'd': [d1, d2], 'kT': rng.choice([1.0, 0.5, 2.0]), 'explicit': rng.choice([None, None, (m + 1) * dr, 0.0, 0])}
-            case['assign'] = rng.choice(['group', 'group', 'setunset', 'shared', 'partial+setunset'])
+            case['assign'] = rng.choice(['group', 'group', 'setunset', 'shared', 'partial+setunset']); case['hc'] = rng.random() < 0.4
             c0 = rng.random()
             if c0 < 0.3: case['pre'] = [['A', 3 * dr], ['B', 5 * dr]]; case['order'] = rng.choice([[['A', d1]], [['B', d2], ['A', d1]], [['A', d1], ['B', d2]]])
             if case.get('order') == [['A', d1]]: case['d'] = [d1, 5 * dr]
